@@ -22,6 +22,7 @@ import FianoModel.Uefi.SampleC04
 import FianoModel.Uefi.TieC04
 
 namespace Fiano.Uefi.C04
+open FaithfulAux
 open Fiano Fiano.Uefi
 
 /-! ### the central theorem -/
